@@ -27,7 +27,7 @@ BUILTIN_NAMES = {
     'round', 'tuple', 'list', 'dict', 'isinstance', 'issubclass', 'getattr', 'setattr', 'hasattr', 'callable', 'type', 'repr',
     'bytearray', 'bytes', 'float', 'slice', 'Counter', 'defaultdict', 'abs', 'sorted', 'next', 'iter', 'set', 'super', 'open', 'print', 'format', 'id',
     # specification vocabulary
-    'old', 'implies', 'iff', 'fresh_bytes', 'fresh_refs', 'in_seq', 'ascii_bytes', 'all_ascii', 'ieee32', 'ieee64', 'f32_overflow', 'progressbar', 'timeit', 'hc_name_ok', 'enum_member',
+    'old', 'implies', 'iff', 'fresh_bytes', 'fresh_refs', 'fresh_int', 'in_seq', 'ascii_bytes', 'all_ascii', 'ieee32', 'ieee64', 'f32_overflow', 'progressbar', 'timeit', 'hc_name_ok', 'enum_member',
 }
 MODULE_NAMES = {'np', 'np.zeros', 'np.dtype', 'numpy', 're', 'logging', 'struct', 'functools', 'h5py', 'datetime_mod', 'enums', 'eflr_types', 'timezone'}
 
